@@ -4,7 +4,7 @@
 import sys, os, re, json, shutil
 pid = sys.argv[1]
 wave = sys.argv[2] if len(sys.argv) > 2 else 'C'   # worktree prefix: C = first wave, D = second wave (ids continue at 4)
-off = {'C': 0, 'D': 3, 'E': 6, 'G': 6, 'H': 9}[wave]
+off = {'C': 0, 'D': 3, 'E': 6, 'G': 6, 'H': 9, 'J': 12}[wave]
 src = f'/tmp/mw/{wave}{pid[1:]}/seeded'
 for k in sorted(os.listdir(src)):
     d = os.path.join(src, k)
@@ -31,7 +31,7 @@ for k in sorted(os.listdir(src)):
     meta_txt = open(os.path.join(d, 'meta.txt')).read() if os.path.exists(os.path.join(d, 'meta.txt')) else ''
     files = sorted(set(re.findall(r'^\+\+\+ b/(\S+)', open(os.path.join(d, 'patch.diff')).read(), re.M)))
     meta = {
-        "id": f"{pid}-{int(k)+off}", "wave": {'C': 1, 'D': 2, 'E': 3, 'G': 3, 'H': 4}[wave], "property": pid, "demo_pkg_dir": pkgdir, "files_changed": files,
+        "id": f"{pid}-{int(k)+off}", "wave": {'C': 1, 'D': 2, 'E': 3, 'G': 3, 'H': 4, 'J': 5}[wave], "property": pid, "demo_pkg_dir": pkgdir, "files_changed": files,
         "origin": "independent sub-agent given only the property text and a scratch worktree of /repo",
         "agent_notes": meta_txt[:6000],
     }
